@@ -354,7 +354,13 @@ fn stmt(rng: &mut Rng, a: &mut Asm, cfg: &StructCfg, depth: u32, budget: &mut i3
         26 => 24,
         x => x,
     };
-    let choice = if rng.chance(1, 30) { 24 } else { choice };
+    let choice = if rng.chance(1, 30) {
+        24
+    } else if rng.chance(1, 12) {
+        25
+    } else {
+        choice
+    };
     match choice {
         0 => {
             let c = cell(rng);
@@ -649,6 +655,58 @@ fn stmt(rng: &mut Rng, a: &mut Asm, cfg: &StructCfg, depth: u32, budget: &mut i3
             });
             a.output(p1);
             a.clear(p1);
+        }
+        25 => {
+            // the source of a value is overwritten (input, constant, another move) between the
+            // definition of the value and its use
+            let (x, y) = two(rng);
+            let t = k + rng.range(0, cfg.scratch - 1);
+            let mut coef = *rng.pick(&[1i64, 1, 2, -1, 3]);
+            if rng.coin() {
+                // the destination is known to be empty: the new value is a plain load of x
+                a.clear(y);
+                if rng.chance(2, 3) {
+                    coef = 1;
+                }
+            }
+            if rng.coin() {
+                // destructive move
+                a.while_(x, |a| {
+                    a.add(y, coef);
+                    a.add(x, -1);
+                });
+            } else {
+                a.while_(x, |a| {
+                    a.add(y, coef);
+                    a.add(t, 1);
+                    a.add(x, -1);
+                });
+                a.while_(t, |a| {
+                    a.add(x, 1);
+                    a.add(t, -1);
+                });
+            }
+            match rng.below(5) {
+                0 | 1 => a.input(x),
+                2 => a.set(x, rng.range(0, 5)),
+                3 => a.add(x, rng.range(1, 4)),
+                _ => {
+                    let z = cell(rng);
+                    if z != x {
+                        a.while_(z, |a| {
+                            a.add(x, 1);
+                            a.add(z, -1);
+                        });
+                    }
+                }
+            }
+            if rng.coin() {
+                a.add(y, rng.range(-2, 2));
+            }
+            a.output(y);
+            if rng.coin() {
+                a.output(x);
+            }
         }
         23 => {
             // a real loop whose body ends in an `if` that adjusts the loop's own condition cell
